@@ -507,7 +507,7 @@ def cid(name):
 
 PASSTHRU = ('__CPROVER_', 'nondet_', 'vf_')
 LIBC_BUILTIN = {'malloc', 'free', 'calloc', 'realloc', 'memcpy', 'memmove', 'memset', 'memcmp', 'strlen',
-                'abort', 'exit', 'strcmp', 'strncmp', 'memchr', 'strchr', 'isspace', 'bcmp'}
+                'abort', 'exit', 'strdup', 'strcmp', 'strncmp', 'memchr', 'strchr', 'isspace', 'bcmp'}
 
 class Emitter:
     def __init__(self, m, opts):
@@ -1331,7 +1331,7 @@ class Emitter:
                     ct = self.ctype(tt)
                     return ['*(%s*)%s = *(%s*)%s;' % (ct, A[0], ct, A[1])]
             fn = 'memcpy' if name.startswith('llvm.memcpy.') else 'memmove'
-            return ['%s(%s, %s, %s);' % (fn, A[0], A[1], A[2])]
+            return ['if (%s) %s(%s, %s, %s);' % (A[2], fn, A[0], A[1], A[2])]   # a zero-length copy touches nothing (dest may be null)
         if name.startswith('llvm.memset.'):
             v0 = args[0][1]
             if args[2][1][0] == 'int' and args[1][1] == ('int', 0) and v0[0] == 'local' and v0[1] in self.i8src:
@@ -1355,7 +1355,7 @@ class Emitter:
                                     return o2
                 except NotImplementedError:
                     pass
-            return ['memset(%s, %s, %s);' % (A[0], A[1], A[2])]
+            return ['if (%s) memset(%s, %s, %s);' % (A[2], A[0], A[1], A[2])]
         if name.startswith('llvm.expect.'):
             setd(rty, A[0]); return out
         if name.startswith('llvm.objectsize.'):
@@ -1403,7 +1403,7 @@ class Emitter:
         cn = self.gname(name)
         ct = self.ctype(g['type'])
         q = ''
-        if g['external'] and name != '__dso_handle':
+        if g['external'] and name != '__dso_handle' and not any(re.search(rx, name) for rx in getattr(self.opts, 'define_external', [])):
             return 'extern %s %s;' % (ct, cn)
         return '%s %s;' % (ct, cn)
 
@@ -1521,6 +1521,7 @@ def main():
     ap.add_argument('--models', action='append', default=[])
     ap.add_argument('--stub-virtual-dtors', action='store_true')
     ap.add_argument('--stub-virtual', action='append', default=[], help='regex: vtable entries whose mangled name matches are replaced by an asserting stub')
+    ap.add_argument('--define-external', action='append', default=[], help='regex: external globals matching get a zero-initialised definition')
     ap.add_argument('--list', help='write the mangled names of all translated function bodies here')
     a = ap.parse_args()
     m = parse_module(open(a.input).read())
@@ -1546,6 +1547,7 @@ def main():
         m.funcs['vf_virtual_dtor_stub'] = fstub
     model_text = ''.join(open(mf).read() for mf in a.models)
     model_names = set(re.findall(r'\bM_([A-Za-z0-9_]+)\s*\(', model_text))
+    opts.define_external = a.define_external
     opts.modelled = set(n for n, f in m.funcs.items() if f.is_decl and cid(n) in model_names)
     em = Emitter(m, opts)
     roots = list(a.root)
